@@ -233,8 +233,12 @@ func main() {
 	if !ok {
 		die2("unknown property %q", prop)
 	}
+	if pc.Engine == "ordersim" {
+		chunkRuns = 5
+	}
 	start := time.Now()
-	scratch, err := os.MkdirTemp(scratchBase(), "verif-"+prop+"-")
+	cleanStaleScratch()
+	scratch, err := os.MkdirTemp(scratchBase(), fmt.Sprintf("verif-%s-p%d-", prop, os.Getpid()))
 	if err != nil {
 		die2("scratch: %v", err)
 	}
@@ -716,14 +720,28 @@ func panicSignature(tail string) string {
 // runSlot runs one worker slot to completion, resuming behind node crashes.
 func runSlot(bin string, base sim.WorkerCfg, scratch string, gmp int, timeout time.Duration) (outs []*sim.WorkerOut, crashes []crashRec, trouble string) {
 	start := 0
-	for attempt := 0; attempt < 60; attempt++ {
+	began := time.Now()
+	for attempt := 0; attempt < 400; attempt++ {
 		cfg := base
 		cfg.StartIter = start
+		if chunkRuns > 0 {
+			cfg.EndIter = start + chunkRuns
+		}
+		if base.BudgetS > 0 {
+			cfg.BudgetS = base.BudgetS - time.Since(began).Seconds()
+			if cfg.BudgetS <= 1 {
+				return
+			}
+		}
 		out, msg := runWorker(bin, &cfg, scratch, gmp, timeout)
 		if out != nil {
 			outs = append(outs, out)
 		}
 		if msg == "" {
+			if chunkRuns > 0 && cfg.EndIter < base.MaxRuns && out != nil && out.Runs > 0 {
+				start = cfg.EndIter // next short-lived process of this slot
+				continue
+			}
 			return
 		}
 		if strings.Contains(msg, "watchdog:") {
@@ -777,4 +795,35 @@ func (c *crashEngine) Execute(prop string, p *sim.Plan, keep bool) *sim.Result {
 	return res
 }
 
+// chunkRuns > 0: every worker process executes at most this many runs and is then replaced (engines
+// whose dead node incarnations leave goroutines and descriptors behind)
+var chunkRuns int
+
 func crashOwner(prop string) bool { return prop == "C08" || prop == "C03" }
+
+// cleanStaleScratch removes scratch directories of controller processes that no longer exist
+// (a killed check cannot run its deferred cleanup).
+func cleanStaleScratch() {
+	ents, err := os.ReadDir(scratchBase())
+	if err != nil {
+		return
+	}
+	for _, e := range ents {
+		name := e.Name()
+		if !e.IsDir() || !strings.HasPrefix(name, "verif-") {
+			continue
+		}
+		pid := 0
+		if i := strings.Index(name, "-p"); i >= 0 {
+			fmt.Sscanf(name[i+2:], "%d", &pid)
+		}
+		if pid > 0 {
+			if _, err := os.Stat(fmt.Sprintf("/proc/%d", pid)); err == nil {
+				continue // its controller is alive
+			}
+		} else if info, err := e.Info(); err == nil && time.Since(info.ModTime()) < 2*time.Hour {
+			continue
+		}
+		_ = os.RemoveAll(filepath.Join(scratchBase(), name))
+	}
+}
